@@ -753,6 +753,44 @@ def add_context_gadget(rnd, spec):
                                           mk(sheet, r0 + 1, 5), mk(sheet, r0 + 2, 5)])
 
 
+def add_numpy_gadget(rnd, spec):
+    """formula cells whose results are numpy scalars (pycel's statistics functions), members
+    of a range that another formula reads (rows 40.. of the first formula sheet)"""
+    sheet = next(s_ for s_ in spec['sheets'] if s_ != spec.get('data_sheet'))
+    r0 = 40
+    xs = [mk(sheet, r0 + i, 1) for i in range(3)]
+    for a, v in zip(xs, rnd.sample((1, 2, 4, 7, 11, 0.5), 3)):
+        spec['cells'].append({'a': a, 'v': v})
+    rng = f'A{r0}:A{r0 + 2}'
+    full = f'{sheet}!{rng}'
+    m1, m2, tot = mk(sheet, r0, 2), mk(sheet, r0 + 1, 2), mk(sheet, r0, 3)
+    spec['cells'].append({'a': m1, 'f': f'=SLOPE({rng},{rng})*A{r0}', 'p': list(xs), 'd': [],
+                          'r': [full]})
+    spec['cells'].append({'a': m2, 'f': f'=FORECAST(A{r0 + 1},{rng},{rng})', 'p': list(xs),
+                          'd': [], 'r': [full]})
+    spec['cells'].append({'a': tot, 'f': f'=SUM(B{r0}:B{r0 + 1})+1', 'p': [m1, m2], 'd': [],
+                          'r': [f'{sheet}!B{r0}:B{r0 + 1}']})
+    spec.setdefault('gadget', []).extend([m1, m2, tot])
+
+
+def add_poison_gadget(rnd, spec):
+    """P names a cell on a sheet the workbook does not have (next to an ordinary reference), Q
+    reads P and another formula: building the graph for Q fails half way.  Returns Q."""
+    sheet = next(s_ for s_ in spec['sheets'] if s_ != spec.get('data_sheet'))
+    dag = Dag(spec)
+    local = [a for a in dag.order if split_addr(a)[0] == sheet and 'cse' not in dag.cell[a]]
+    if not local:
+        return None
+    forms = [a for a in local if is_formula_cell(dag.cell[a])] or local
+    c1, f1 = rnd.choice(local), rnd.choice(forms)
+    p_, q_ = mk(sheet, 36, 1), mk(sheet, 36, 2)
+    spec['cells'].append({'a': p_, 'f': f'=ROW(Missing!A5)+{split_addr(c1)[1]}', 'p': [c1],
+                          'd': [], 'poison': True})
+    spec['cells'].append({'a': q_, 'f': f'=A36+{split_addr(f1)[1]}', 'p': [p_, f1], 'd': [],
+                          'poison': True})
+    return q_
+
+
 def add_table_gadget(rnd, spec):
     """the same small table at the same place on up to two sheets; the formulas of its last
     column and a total next to it are written with structured references ([@qty], Tbl0[total]).
